@@ -28,5 +28,6 @@ pub mod serde_model;
 pub mod c18;
 pub mod c19;
 pub mod c20;
+pub mod engb;
 
 pub mod gen;
